@@ -1,14 +1,17 @@
 // C13 correspondence driver: dimension descriptors of ONE DataArray over the public nix API.
 // One case = one history on a fresh file; every line is answered with exactly one line.
 //
-//   new <dtype> <rank> <len> <nframes> { <s:name> <rows> <ncols> { <s:col> <s:unit> <type> }* }*
+//   new <dtype> <rank> <len> <nframes> { <s:name> <rows> <ncols> { <s:col> <s:unit> <type> }* }* <nforeign> { frame }*
 //        fresh file; block "b" with the frames and the array "a" (shape [len], [len 2], [len 2 2]);
-//        a second block "b2" holds the frame "g" (the "foreign" frame, not in the array's block)
+//        a second block "b2" holds the "foreign" frames (same syntax; their names may equal local names)
 //   append_set <n> <s:label>*                      DataArray::appendSetDimension(labels)
 //   append_range <s:label> <s:unit> <d:tick>*      DataArray::appendRangeDimension(ticks, label, unit)
 //   append_sampled <d:interval> <s:label> <s:unit> <d:offset>   DataArray::appendSampledDimension(...)
 //   append_alias                                   DataArray::appendAliasRangeDimension()
-//   append_df_idx <f> <col> | append_df_name <f> <s:col> | append_df <f>   f = frame ordinal | none | foreign
+//   append_df_idx <f> <col> | append_df_name <f> <s:col> | append_df <f>   f = frame ordinal | none | foreign:<k>
+//   drop_b2                                        File::deleteBlock("b2"); the foreign handles stay in the driver's hands
+//   recreate <k>                                   Block::deleteDataFrame(name of local frame k); createDataFrame(same name, same
+//                                                  columns); the OLD handle becomes the next foreign frame (a stale handle)
 //   create_set <id> | create_range <id> <d:tick>* | create_sampled <id> <d:interval> | create_alias   (deprecated forms)
 //   delete_dims                                    DataArray::deleteDimensions()
 //   count | get <i> | dims                         dimensionCount(), getDimension(i), dimensions()
@@ -37,7 +40,10 @@ struct Session {
     nix::DataArray arr;
     std::vector<nix::DataFrame> frames;
     std::vector<std::string> fnames;
-    nix::DataFrame foreign;
+    std::vector<nix::DataFrame> foreign;
+    std::vector<std::string> foreign_names;      // "" = not in the file any more after a reopen (stale handle)
+    bool b2_alive = true;
+    bool ro = false;
     DataType dt = DataType::Nothing;
     size_t rank = 0;
     std::string path;
@@ -79,23 +85,30 @@ template<typename F> static std::string fld(F f) {
 }
 
 static void close_all() {
-    S.arr = nix::none; S.frames.clear(); S.foreign = nix::DataFrame(); S.block = nix::none; S.block2 = nix::none;
+    S.arr = nix::none; S.frames.clear(); for (auto &f : S.foreign) f = nix::DataFrame(); S.block = nix::none; S.block2 = nix::none;
     if (S.file) { try { S.file.close(); } catch (...) {} }
     S.file = nix::none;
 }
 
 static void fetch() {
     S.block = S.file.getBlock("b");
-    S.block2 = S.file.getBlock("b2");
+    if (S.b2_alive) S.block2 = S.file.getBlock("b2");
     S.arr = S.block.getDataArray("a");
     S.frames.clear();
     for (const std::string &n : S.fnames) S.frames.push_back(S.block.getDataFrame(n));
-    S.foreign = S.block2.getDataFrame("g");
+    for (size_t k = 0; k < S.foreign.size(); k++) {
+        if (S.b2_alive && !S.foreign_names[k].empty()) S.foreign[k] = S.block2.getDataFrame(S.foreign_names[k]);
+        else { S.foreign[k] = nix::DataFrame(); S.foreign_names[k] = ""; }
+    }
 }
 
 static nix::DataFrame frame_arg(const std::string &t) {
     if (t == "none") return nix::DataFrame();
-    if (t == "foreign") return S.foreign;
+    if (t.compare(0, 8, "foreign:") == 0) {
+        size_t k = dec_u64(t.substr(8));
+        if (k >= S.foreign.size()) throw std::logic_error("bad foreign frame ordinal");
+        return S.foreign[k];
+    }
     size_t k = dec_u64(t);
     if (k >= S.frames.size()) throw std::logic_error("bad frame ordinal");
     return S.frames[k];
@@ -179,9 +192,9 @@ static std::string handle(const std::vector<std::string> &t) {
         S.file = nix::File::open(S.path, nix::FileMode::Overwrite);
         S.block = S.file.createBlock("b", "t");
         S.block2 = S.file.createBlock("b2", "t");
-        S.fnames.clear();
+        S.fnames.clear(); S.foreign.clear(); S.foreign_names.clear(); S.b2_alive = true; S.ro = false;
         size_t p = 5;
-        for (size_t f = 0; f < nfr; f++) {
+        auto make_frame = [&](nix::Block &blk) {
             std::string name = dec_str(t.at(p++));
             size_t rows = dec_u64(t.at(p++));
             size_t nc = dec_u64(t.at(p++));
@@ -193,16 +206,13 @@ static std::string handle(const std::vector<std::string> &t) {
                 col.dtype = parse_dtype(t.at(p++));
                 cols.push_back(col);
             }
-            nix::DataFrame df = S.block.createDataFrame(name, "t", cols);
+            nix::DataFrame df = blk.createDataFrame(name, "t", cols);
             df.rows(rows);
-            S.fnames.push_back(name);
-        }
-        {
-            std::vector<nix::Column> cols(1);
-            cols[0].name = "x"; cols[0].unit = "s"; cols[0].dtype = DataType::Double;
-            nix::DataFrame g = S.block2.createDataFrame("g", "t", cols);
-            g.rows(1);
-        }
+            return name;
+        };
+        for (size_t f = 0; f < nfr; f++) S.fnames.push_back(make_frame(S.block));
+        size_t nfo = dec_u64(t.at(p++));
+        for (size_t f = 0; f < nfo; f++) { S.foreign_names.push_back(make_frame(S.block2)); S.foreign.push_back(nix::DataFrame()); }
         NDSize shape(S.rank, 2);
         shape[0] = len;
         S.block.createDataArray("a", "t", S.dt, shape);
@@ -211,12 +221,33 @@ static std::string handle(const std::vector<std::string> &t) {
     }
     if (c == "reopen") {
         close_all();
-        S.file = nix::File::open(S.path, t.at(1) == "ro" ? nix::FileMode::ReadOnly : nix::FileMode::ReadWrite);
+        S.ro = t.at(1) == "ro";
+        S.file = nix::File::open(S.path, S.ro ? nix::FileMode::ReadOnly : nix::FileMode::ReadWrite);
         fetch();
         return "-";
     }
     if (!S.arr) throw nix::UninitializedEntity();
     if (c == "observe") return observe();
+    if (c == "drop_b2") {
+        if (S.ro) throw std::logic_error("drop_b2 is not exercised on a read-only session");
+        bool r = S.file.deleteBlock("b2");
+        S.block2 = nix::none; S.b2_alive = false;
+        return r ? "1" : "0";
+    }
+    if (c == "recreate") {
+        if (S.ro) throw std::logic_error("recreate is not exercised on a read-only session");
+        size_t k = dec_u64(t.at(1));
+        if (k >= S.frames.size()) throw std::logic_error("bad frame ordinal");
+        nix::DataFrame old = S.frames[k];
+        std::vector<nix::Column> cols = old.columns();
+        nix::ndsize_t rows = old.rows();
+        S.block.deleteDataFrame(S.fnames[k]);
+        nix::DataFrame nf = S.block.createDataFrame(S.fnames[k], "t", cols);
+        nf.rows(rows);
+        S.frames[k] = nf;
+        S.foreign.push_back(old); S.foreign_names.push_back("");
+        return "-";
+    }
 
     // ---- appends ----
     if (c == "append_set") {
